@@ -123,6 +123,7 @@ extern size_t sk_arena_size;
  * step and return 1, or return 0 if no environment step is available. */
 extern int (*sk_env_pull)(void);
 extern void (*sk_yield_hook)(int kind);
+extern void (*sk_on_fork)(int proc);
 extern void (*sk_on_term_later)(int handle);
 /* called when a block cannot be resolved (no env step left): never returns */
 extern void (*sk_on_hang)(const char *what);
